@@ -157,6 +157,8 @@ def run(facts, rep, mixing_rule=False):
                       where='%s:%d' % (dn.file, dn.blocks[sb]['term'].get('line', dn.line)))
     else:
         rep.ok('E21.N2-restart-on-change', inst, 'true -> bb%d -> next() at bb%d' % (T, N))
+    # ---- N5: unit normalisation comes after the last modification of the diagonal
+    check_normalise_last(dn, sb, rep)
     # ---- N3 range bounds
     want_r = 'unwrap_or(next(&mut _), min(nrows(&*arg1.target), ncols(&*arg1.target)))'
     rng = idx = None
@@ -223,3 +225,34 @@ def check_mixing(st, rep, X, Y):
                           where=st.where())
     if n == 0:
         rep.indet('E21.N4: no mixing step found in diag_normalize_step')
+
+
+def check_normalise_last(dn, sb, rep):
+    """N5: the diagonal entries are multiplied by their normalising units *after* the chain loop: a gcd step writes new
+    entries (d, x y / d) whose product of normalised factors need not be normalised (Z[i], Z[w]: the sector is not closed
+    under multiplication). On the CFG: no step call is reachable from a normalizing_unit call, every path from the step
+    call to the return passes through the normalising loop, and that loop runs over 0..r and is left only by exhaustion."""
+    import cfgutil
+    nus = [c.bb for c in dn.calls() if (c.callee or c.generic or '').split('::')[-1] == 'normalizing_unit']
+    inst = 'SnfCalc::diag_normalize|unit normalisation after the last change of the diagonal'
+    if not nus:
+        rep.violation('E21.N5-normalise-last', inst, 'diag_normalize never multiplies the diagonal entries by their normalising units', where=dn.where())
+        return
+    probs = []
+    for u in nus:
+        if sb in cfgutil.reach_without(dn, u, set()):
+            probs.append('a diag_normalize_step call is reachable after the unit normalisation (bb%d -> bb%d): entries produced by a later gcd step are returned un-normalised' % (u, sb))
+    loops = [l for l in cfgutil.for_loops(dn) if any(u in cfgutil.reach_without(dn, l[2], {l[1]}) for u in nus)]
+    if len(loops) != 1:
+        rep.indet('E21.N5: %d loops contain the normalising-unit call' % len(loops))
+        return
+    (I, N, some, none) = loops[0]
+    rets = set(dn.return_blocks())
+    if cfgutil.reach_without(dn, sb, {I}) & rets:
+        probs.append('the function can return after a step without passing through the normalising loop')
+    if cfgutil.early_exits(dn, N, some):
+        probs.append('the normalising loop can be left before all entries were visited')
+    if probs:
+        rep.violation('E21.N5-normalise-last', inst, 'SnfCalc::diag_normalize: ' + '; '.join(sorted(set(probs))), where=dn.where())
+    else:
+        rep.ok('E21.N5-normalise-last', inst, 'chain loop, then for i in 0..r { mul_row(i, normalizing_unit) }')
